@@ -22,8 +22,11 @@ type env struct {
 	dir  string
 	st   *store.ImmuStore
 	eng  *sql.Engine
-	sess map[int]*sql.SQLTx // nil / absent = no open transaction (autocommit)
+	sess sessTab // per session: the open transaction, nil = none (autocommit)
 }
+
+// sessTab holds one slot per session id (-1..30); different goroutines use different slots
+type sessTab [32]*sql.SQLTx
 
 var sqlPrefix = []byte{2}
 
@@ -34,7 +37,7 @@ func newEnv(dir string) *env {
 	vh.Must(err, "store.Open")
 	eng, err := sql.NewEngine(st, sql.DefaultOptions().WithPrefix(sqlPrefix))
 	vh.Must(err, "sql.NewEngine")
-	return &env{dir: dir, st: st, eng: eng, sess: map[int]*sql.SQLTx{}}
+	return &env{dir: dir, st: st, eng: eng}
 }
 
 func (e *env) close() {
@@ -90,7 +93,7 @@ func (e *env) exec(s int, text string) execOut {
 	if err != nil {
 		vh.Fatalf("parse %q: %v", text, err)
 	}
-	cur := e.sess[s]
+	cur := e.sess[s+1]
 	before := 0
 	if cur != nil && !cur.Closed() {
 		before = cur.UpdatedRows()
@@ -114,15 +117,15 @@ func (e *env) exec(s int, text string) execOut {
 	}
 	if err != nil {
 		// the engine cancels the transaction of a failed statement (execPreparedStmts); if it did not, keep it
-		e.sess[s] = nil
+		e.sess[s+1] = nil
 		if cur != nil && !cur.Closed() {
-			e.sess[s] = cur
+			e.sess[s+1] = cur
 			out.InTx = true
 		}
 		return out
 	}
 	if ntx != nil && !ntx.Closed() {
-		e.sess[s] = ntx
+		e.sess[s+1] = ntx
 		out.InTx = true
 		out.Updated = ntx.UpdatedRows()
 		if ntx == cur {
@@ -131,7 +134,7 @@ func (e *env) exec(s int, text string) execOut {
 		out.LastPK = ntx.LastInsertedPKs()["t"]
 		return out
 	}
-	e.sess[s] = nil
+	e.sess[s+1] = nil
 	if len(ctxs) > 0 {
 		lastTx := ctxs[len(ctxs)-1]
 		out.Updated = lastTx.UpdatedRows()
@@ -145,8 +148,8 @@ func (e *env) exec(s int, text string) execOut {
 
 // cancel closes the session's transaction without COMMIT (session close / connection drop).
 func (e *env) cancel(s int) error {
-	tx := e.sess[s]
-	e.sess[s] = nil
+	tx := e.sess[s+1]
+	e.sess[s+1] = nil
 	if tx == nil || tx.Closed() {
 		return nil
 	}
@@ -157,7 +160,7 @@ func (e *env) cancel(s int) error {
 // and returns the rows as [][]interface{} (int64 / string / nil).
 func (e *env) query(s int, text string) ([][]interface{}, error) {
 	ctx := context.Background()
-	cur := e.sess[s]
+	cur := e.sess[s+1]
 	if cur != nil && cur.Closed() {
 		cur = nil
 	}
